@@ -2496,3 +2496,87 @@ func steppedVar(v ssa.Value, h *ssa.BasicBlock) bool {
 	}
 	return false
 }
+
+// ---------------------------------------------------------------------------
+// Field-level frames: `effects writes-only T.f[,T.g]`
+// ---------------------------------------------------------------------------
+// The function (with the module functions it calls statically, transitively)
+// stores to no field of struct type T other than the listed ones, and never
+// overwrites a whole T.  Used for frames the SMT side cannot state because the
+// object is reached through an interior pointer returned by a callee.
+
+func (g *EffGraph) writesOnlyObligations(prop string) []*EffObl {
+	var out []*EffObl
+	for _, ct := range g.eng.all {
+		if !ct.hasProp(prop) {
+			continue
+		}
+		for _, cl := range ct.byKind("effects") {
+			i := strings.Index(cl.Text, "writes-only")
+			if i < 0 {
+				continue
+			}
+			fn := g.eng.findFunc(ct.PkgPath, ct.Key)
+			if fn == nil {
+				continue
+			}
+			allowed := map[string]bool{}
+			tname := ""
+			for _, item := range strings.Split(cl.Text[i+len("writes-only"):], ",") {
+				item = strings.TrimSpace(item)
+				if j := strings.Index(item, "."); j > 0 {
+					tname = item[:j]
+					allowed[item] = true
+				}
+			}
+			var bad []string
+			seen := map[*ssa.Function]bool{}
+			var walk func(f *ssa.Function, depth int)
+			walk = func(f *ssa.Function, depth int) {
+				if seen[f] || depth > 6 || len(f.Blocks) == 0 {
+					return
+				}
+				seen[f] = true
+				for _, b := range f.Blocks {
+					for _, in := range b.Instrs {
+						switch x := in.(type) {
+						case *ssa.Store:
+							if fa, ok := x.Addr.(*ssa.FieldAddr); ok {
+								if pt, ok := fa.X.Type().Underlying().(*types.Pointer); ok {
+									if n, ok := pt.Elem().(*types.Named); ok && n.Obj().Name() == tname {
+										if stt, ok := n.Underlying().(*types.Struct); ok {
+											fname := tname + "." + stt.Field(fa.Field).Name()
+											if !allowed[fname] {
+												bad = append(bad, fmt.Sprintf("store to %s in %s at %s", fname, f.Name(), relPos(g.eng, g.eng.fset.Position(x.Pos()))))
+											}
+										}
+									}
+								}
+							} else if pt, ok := x.Addr.Type().Underlying().(*types.Pointer); ok {
+								if n, ok := pt.Elem().(*types.Named); ok && n.Obj().Name() == tname {
+									if _, isAlloc := x.Addr.(*ssa.Alloc); !isAlloc {
+										bad = append(bad, fmt.Sprintf("whole %s overwritten in %s at %s", tname, f.Name(), relPos(g.eng, g.eng.fset.Position(x.Pos()))))
+									}
+								}
+							}
+						case ssa.CallInstruction:
+							if cal := x.Common().StaticCallee(); cal != nil && g.inModule[cal] {
+								walk(cal, depth+1)
+							}
+						}
+					}
+				}
+			}
+			walk(fn, 0)
+			o := &EffObl{Name: effName(fn) + "/effect:writes-only(" + tname + ")", Kind: "effect", Pos: relPos(g.eng, g.eng.fset.Position(fn.Pos())),
+				Desc: "stores to " + tname + " touch only " + strings.TrimSpace(cl.Text[i+len("writes-only"):])}
+			if len(bad) == 0 {
+				o.OK = true
+			} else {
+				o.Witness = strings.Join(bad, "; ")
+			}
+			out = append(out, o)
+		}
+	}
+	return out
+}
